@@ -33,7 +33,11 @@ func runC12(c *core.Ctx) {
 	alpha := []byte("ab/:.@")
 	maxLen := c.N(7, 9)
 	printed := map[string]label.Label{}
-	pkgs := []string{"//", "//a", "//a/b", "//b.a"}
+	// base packages to resolve against: clean ones, then spellings that are not clean (repeated and trailing slashes, an
+	// empty first element) and ones that must be rejected ('..' elements, a single leading slash); equivalent spellings
+	// are listed next to each other (pkgClass gives the class of each)
+	pkgs := []string{"//", "//a", "//a/b", "//b.a", "//a/", "///a", "//a//b", "//a/b/", "//a//b//", "//a/../..", "//a/./b", "/a", "//..", "a/"}
+	pkgClass := []int{0, 1, 2, 3, 1, 1, 2, 2, 2, -1, -1, -1, -1, 4} // "a/" is a (valid) relative package
 	var accepted, total, reparsed int64
 	nviol := 0
 	viol := func(id, sym string, w map[string]any) {
@@ -55,9 +59,25 @@ func runC12(c *core.Ctx) {
 		accepted++
 		var cands []*label.Label
 		cands = append(cands, l)
-		for _, pk := range pkgs {
-			if r, err := l.RelativeTo(pk); err == nil {
-				cands = append(cands, r)
+		byClass := map[int]*label.Label{}
+		for pi, pk := range pkgs {
+			r, err := l.RelativeTo(pk)
+			if err != nil {
+				continue
+			}
+			cands = append(cands, r)
+			if l.IsAbs() {
+				continue
+			}
+			// a relative label resolved against a package that is not a valid package path must be rejected, and two
+			// spellings of one package must give equal labels
+			cl := pkgClass[pi]
+			if cl < 0 {
+				viol(id, "relative-label-resolved-against-an-invalid-package", map[string]any{"input": s, "package": pk, "result": fmt.Sprintf("%+v", *r)})
+			} else if prev, ok := byClass[cl]; ok && *prev != *r {
+				viol(id, "equivalent-packages-resolve-to-different-labels", map[string]any{"input": s, "package": pk, "a": fmt.Sprintf("%+v", *prev), "b": fmt.Sprintf("%+v", *r)})
+			} else {
+				byClass[cl] = r
 			}
 		}
 		for k, x := range cands {
